@@ -16,8 +16,12 @@ LEVEL = ('decides properties of the code that only runs under non-default option
          'reason covering every earlier level (J7). the free list of nogood ids is only pushed and '
          'popped (J1), the reason of a flipped decision takes every reason-less entry of each earlier '
          "level (J7), the semantic minimiser's steps and emission are exact (J8/J9), a permanent "
-         'nogood is stored in its preprocessed form (J10). Does not decide equality of answers across '
-         'option values, nor termination under forget-everything settings')
+         'nogood is stored in its preprocessed form (J10). Also runs the KERNEL BUNDLE (rule ids '
+         '…K<n>): the kernel rules every verdict depends on — predicate algebra, nogood watchers, '
+         'minimisers, conflict-analysis tables, nogood deletion, decision read-back, no-learning '
+         'resolver, constraint builders, reified reasons — wherever they are not already registered '
+         'here under another id. Does not decide equality of answers across option values, nor '
+         'termination under forget-everything settings')
 TECHNIQUE = "static analysis: dominance / who-may-call / call-graph closure / arity agreement over rustc MIR"
 
 
@@ -442,3 +446,5 @@ def run(ctx, led):
     from . import C02 as _C02
     run_rule(led, "J11", "equality halves merged when minimisation is off (shared with C02-U22)", _C02.u22, ctx)
     run_rule(led, "J12", "conflict resolution returns in the Solving state also when nothing was learned (shared with C02-U23)", _C02.u23, ctx)
+    from . import kernel as _kernel
+    _kernel.run_bundle(led, ctx, "J")
